@@ -441,11 +441,16 @@ impl Registry {
                     }
                 }
 
-                if let Some(description) = description {
+                // a type extension cannot carry a description
+                let is_extension = options.federation && *extends;
+
+                if let Some(description) = description
+                    && !is_extension
+                {
                     write_description(sdl, options, 0, description);
                 }
 
-                if options.federation && *extends {
+                if is_extension {
                     write!(sdl, "extend ").ok();
                 }
 
@@ -503,11 +508,16 @@ impl Registry {
                 requires_scopes,
                 ..
             } => {
-                if let Some(description) = description {
+                // a type extension cannot carry a description
+                let is_extension = options.federation && *extends;
+
+                if let Some(description) = description
+                    && !is_extension
+                {
                     write_description(sdl, options, 0, description);
                 }
 
-                if options.federation && *extends {
+                if is_extension {
                     write!(sdl, "extend ").ok();
                 }
                 write!(sdl, "interface {}", name).ok();
